@@ -70,7 +70,7 @@ impl Property for C02 {
     }
     fn runs(&self, tier: Tier) -> u64 {
         match tier {
-            Tier::Quick => 40_000,
+            Tier::Quick => 100_000,
             Tier::Thorough => 2_500_000,
         }
     }
